@@ -285,6 +285,126 @@ def _walk(v):
                 yield from _walk(x)
 
 
+def resolvable_contract(ctx, py: PyRepo):
+    """`resolvable(A, B)` is what resolution_algorithm and build_proof_from_hint take for granted: it answers (r, R) only when
+    exactly one literal r of B has its negation in A, and R = (A without -r) together with (B without r).  Decided on the value
+    paths by a membership algebra: for an arbitrary literal y, `y in <set expression>` is a boolean function of the atoms
+    y in A, y in B, -y in A, y == r, y == -r (union = or, intersection = and, difference = and-not, {e} = equality,
+    {-x for x in A} = "-y in A"), compared with the specified function over all assignments of the atoms that the data allow
+    (r != 0; -r in A and r in B by the definition of r; clauses on the work list contain no complementary pair - the trivial ones
+    are filtered by start_resolution_algorithm and a resolvent over exactly one clash has none)."""
+    import itertools
+    from ..core.pyeval import PyEval, show
+    fn = py.method('Tautology', 'resolvable')
+    where = py.where('tautology', fn)
+    ctx.require(fn is not None and len(fn.args.args) == 3, 'anchor vanished: Tautology.resolvable(c1, c2)')
+    A, B = (('param', a.arg) for a in fn.args.args[1:])
+    ATOMS = ('inA', 'inB', 'negInA', 'isR', 'isNegR')
+
+    class Undecided(Exception):
+        pass
+
+    def mem(v, r):
+        """membership of the arbitrary literal y in the set value v, as a function env -> bool"""
+        if v == A:
+            return lambda e: e['inA']
+        if v == B:
+            return lambda e: e['inB']
+        if v[0] == 'call' and v[1] in (('name', 'set'), ('name', 'frozenset')) and len(v[2]) == 1:
+            return mem(v[2][0], r)
+        if v[0] == 'comp' and v[1] in ('setcomp', 'gen', 'listcomp') and len(v[3]) == 1 and not v[3][0][2] \
+                and v[2] == ('unop', 'USub', ('bound', v[3][0][0])) and v[3][0][1] == A:
+            return lambda e: e['negInA']
+        if v[0] == 'set':
+            parts = []
+            for x in v[1]:
+                if r is not None and x == r:
+                    parts.append('isR')
+                elif r is not None and x == ('unop', 'USub', r):
+                    parts.append('isNegR')
+                else:
+                    raise Undecided(f'set display element {show(x)[:40]}')
+            return lambda e: any(e[k] for k in parts)
+        op = None
+        if v[0] == 'call' and v[1][0] == 'attr' and v[1][2] in ('union', 'intersection', 'difference') and len(v[2]) == 1 and not v[3]:
+            op, l, rr = v[1][2], v[1][1], v[2][0]
+        elif v[0] == 'binop' and v[1] in ('BitOr', 'BitAnd', 'Sub'):
+            op, l, rr = {'BitOr': 'union', 'BitAnd': 'intersection', 'Sub': 'difference'}[v[1]], v[2], v[3]
+        if op is not None:
+            f, g = mem(l, r), mem(rr, r)
+            return {'union': lambda e: f(e) or g(e), 'intersection': lambda e: f(e) and g(e), 'difference': lambda e: f(e) and not g(e)}[op]
+        raise Undecided(f'set expression {show(v)[:60]}')
+
+    def envs(with_r):
+        for bits in itertools.product((False, True), repeat=len(ATOMS)):
+            e = dict(zip(ATOMS, bits))
+            if not with_r and (e['isR'] or e['isNegR']):
+                continue
+            if e['isR'] and e['isNegR']:
+                continue                                   # r != 0
+            if e['isR'] and not (e['inB'] and e['negInA']):
+                continue                                   # y == r: r is in B and -r in A
+            if e['isNegR'] and not e['inA']:
+                continue                                   # y == -r: -r is in A
+            if e['inA'] and e['negInA'] and False:
+                continue
+            if e['isR'] and e['inA'] or e['isNegR'] and e['inB']:
+                continue                                   # no complementary pair inside A or inside B
+            yield e
+
+    probs, n_ret = [], 0
+    try:
+        paths = PyEval().paths(fn)
+    except Exception as ex:  # noqa: BLE001
+        ctx.require(False, f'resolvable: outside the analysed subset: {ex}')
+    for p in paths:
+        if p.end[0] != 'return':
+            continue
+        n_ret += 1
+        # the clash set: the operand of the len(..) test on this path
+        lens = [(c, b) for c, b in p.conds if c[0] == 'cmp' and c[1] in ('==', '!=') and c[2][0] == 'call' and c[2][1] == ('name', 'len')
+                and c[3] == ('const', 1)]
+        if len(lens) != 1:
+            probs.append('a returning path does not test that exactly one literal clashes (len(<clash set>) == 1)')
+            continue
+        (c, b) = lens[0]
+        common = c[2][2][0]
+        exactly_one = b if c[1] == '==' else not b
+        try:
+            f = mem(common, None)
+            if any(f(e) != (e['negInA'] and e['inB']) for e in envs(False)):
+                probs.append(f'the clash set `{show(common)[:70]}` is not the set of literals of the second clause whose negation is in the first')
+        except Undecided as u:
+            ctx.require(False, f'resolvable: {u} is outside the membership algebra')
+        if not exactly_one:
+            if p.end[1] != ('const', None):
+                probs.append('answers with a resolvent although the number of clashing literals is not one')
+            continue
+        v = p.end[1]
+        if not (v[0] == 'tuple' and len(v[1]) == 2):
+            probs.append(f'returns {show(v)[:60]}, not (literal, resolvent)')
+            continue
+        r, R = v[1]
+        elem = r in (('item', common, 0), ('sub', common, ('const', 0))) or (r[0] == 'call' and r[1] == ('name', 'next') and len(r[2]) == 1) \
+            or r == ('call', ('attr', common, 'pop'), (), ())
+        if not elem:
+            probs.append(f'the literal returned, `{show(r)[:50]}`, is not the element of the clash set')
+            continue
+        try:
+            g = mem(R, r)
+            bad = [e for e in envs(True) if g(e) != ((e['inA'] and not e['isNegR']) or (e['inB'] and not e['isR']))]
+            if bad:
+                e = bad[0]
+                what = 'r itself' if e['isR'] else ('-r' if e['isNegR'] else ('a literal of the first clause' if e['inA'] else
+                                                                              ('a literal of the second clause' if e['inB'] else 'a literal of neither clause')))
+                probs.append(f'the resolvent `{show(R)[:80]}` is not (first clause without -r) + (second clause without r): it differs on {what}')
+        except Undecided as u:
+            ctx.require(False, f'resolvable: {u} is outside the membership algebra')
+    ctx.ob('stage-contract', 'resolution/resolvable', n_ret >= 2 and not probs,
+           'resolvable(A, B) must answer (r, (A - {-r}) | (B - {r})) exactly when one literal r of B has its negation in A, else None: '
+           + ('; '.join(probs) if probs else f'{n_ret} returning paths decided'), where)
+
+
 def resolution_contract(ctx, py: PyRepo):
     """inductive step of the refutation builder: assuming each recursive call of build_proof_from_hint returns a clause L with a proof
     of `CONJ -> clause_to_pattern(L)`, and simplify_clause / merge_clauses keep their contracts (equivalences, stated as assumptions),
@@ -307,14 +427,110 @@ def resolution_contract(ctx, py: PyRepo):
     CONJ, P, A, B, M = atom('CONJ'), atom('P'), atom('A'), atom('B'), atom('M')
     NEGP = N.apply('neg', [P])
     BOT = N.apply('bot', [])
-    # the stored resolvant is the absolute value: the left parent holds the negative literal
+    # what resolution_algorithm records for a resolvent, on value paths (helpers of the class evaluated in place): with
+    # (r, rest) = resolvable(A, B) - r in B, -r in A - the entry must be ResolutionHintSource(<parent holding -|r|>, <parent holding |r|>, |r|),
+    # because build_proof_from_hint normalises the left parent on -resolvant and the right parent on resolvant
+    from ..core.pyfacts import self_method_resolver
     ra = py.method('Tautology', 'resolution_algorithm')
-    mk = [c for c in ast.walk(ra) if isinstance(c, ast.Call) and ast.unparse(c.func) == 'ResolutionHintSource']
-    ctx.ob('stage-contract', 'resolution/resolvant-is-absolute', len(mk) == 1 and len(mk[0].args) == 3 and ast.unparse(mk[0].args[2]).startswith('abs('),
-           'resolution_algorithm must record the resolved variable as abs(literal): build_proof_from_hint negates it for the left parent',
+    ci_t = py.cls('Tautology')
+    rev = PyEval(resolver=self_method_resolver(py, ci_t, SELF, exclude=('resolvable',)))
+    stores = []
+
+    def collect(paths, conds):
+        for q in paths:
+            cs = conds + list(q.conds)
+            for e in q.events:
+                if e.kind == 'setitem' and e.value[0] == ('param', ra.args.args[1].arg):
+                    stores.append((cs, e.value[2]))
+                elif e.kind == 'loop':
+                    collect(e.extra, cs)
+    try:
+        collect([q for q in rev.paths(ra)], [])
+    except S.Decline as d:
+        ctx.require(False, f'resolution_algorithm outside the analysed subset: {d}')
+    # the same store is seen once from inside the loop and once on the returning path: judge distinct (conditions, value) pairs
+    seen, n_st, bad = set(), 0, []
+
+    def split_ifexp(v, cs):
+        """case split on a conditional expression inside the stored value"""
+        for x in _walk(v):
+            if x[0] == 'ifexp':
+                out = []
+                for truth, pick in ((True, x[2]), (False, x[3])):
+                    atom_, pol = PyEval.norm_test(x[1])
+
+                    def sub(y):
+                        if y == x:
+                            return pick
+                        return tuple(sub(z) if isinstance(z, tuple) else z for z in y) if isinstance(y, tuple) else y
+                    v2 = sub(v)
+                    # (a, b)[0] after the split
+                    def proj(y):
+                        if isinstance(y, tuple) and y:
+                            y = tuple(proj(z) if isinstance(z, tuple) else z for z in y)
+                            if y[0] in ('sub', 'item') and y[1][0] in ('tuple', 'list'):
+                                k = y[2][1] if y[0] == 'sub' and y[2][0] == 'const' else (y[2] if y[0] == 'item' else None)
+                                if isinstance(k, int) and -len(y[1][1]) <= k < len(y[1][1]):
+                                    return y[1][1][k]
+                        return y
+                    out.extend(split_ifexp(proj(v2), cs + [(atom_, truth == pol)]))
+                return out
+        return [(cs, v)]
+
+    for cs, v in stores:
+        for cs2, v2 in split_ifexp(v, cs):
+            key = (tuple(sorted(map(repr, cs2))), v2)
+            if key in seen:
+                continue
+            seen.add(key)
+            n_st += 1
+            args = list(v2[2]) + [kv[1] for kv in v2[3]] if v2[0] == 'call' and v2[1] == ('name', 'ResolutionHintSource') else None
+            if args is None or len(args) != 3 or v2[3]:
+                bad.append(f'records {show(v2)[:100]}')
+                continue
+            L, R, V = args
+            src = [x for x in _walk(V) if x[0] == 'call' and x[1] == ('attr', SELF, 'resolvable') and len(x[2]) == 2]
+            if not src:
+                bad.append(f'records the variable {show(V)[:80]}, not the literal found by resolvable()')
+                continue
+            A, B = src[0][2]
+            X = None
+            for cand in (('item', src[0], 0), ('sub', src[0], ('const', 0))):
+                if cand in list(_walk(V)):
+                    X = cand
+            neg = None                      # is the literal known negative on this path?
+            for c, b in cs2:
+                if c[0] == 'cmp' and c[2] == X and c[3] == ('const', 0):
+                    neg = {('<', True): True, ('<', False): False, ('>=', True): False, ('>=', False): True,
+                           ('>', True): False, ('<=', False): False}.get((c[1], b), neg)
+                if c[0] == 'cmp' and c[3] == X and c[2] == ('const', 0):
+                    neg = {('>', True): True, ('>', False): False, ('<=', True): False, ('<=', False): True,
+                           ('<', True): False, ('>=', False): False}.get((c[1], b), neg)
+            absolute = V == ('call', ('name', 'abs'), (X,), ()) or (neg is True and V == ('unop', 'USub', X)) or (neg is False and V == X)
+            if not absolute:
+                bad.append(f'records {show(V)[:60]} as the resolved variable{"" if neg is None else " when the literal is " + ("negative" if neg else "not negative")}: '
+                           f'it must be its absolute value')
+            elif neg is None:
+                bad.append('records the parents without testing the sign of the literal: which parent holds the negated variable is not fixed')
+            elif (L, R) != ((B, A) if neg else (A, B)):
+                bad.append(f'when the literal is {"negative" if neg else "not negative"} the parents are recorded as ({show(L)[:30]}, {show(R)[:30]}): the left '
+                           f'one must be the clause holding the negated variable')
+    ctx.ob('stage-contract', 'resolution/resolvant-is-absolute', n_st >= 2 and not bad,
+           'resolution_algorithm must record (clause with -|r|, clause with |r|, |r|) for a resolvent: build_proof_from_hint normalises the left '
+           'parent on -resolvant and the right one on resolvant; ' + ('; '.join(bad) if bad else f'{n_st} recording cases found'),
            py.where('tautology', ra))
     n = 0
-    for p in PyEval().paths(fn):
+    # helpers of the class that branch (a case split moved out of the method) are evaluated in place; straight-line lemmas are typed
+    # by their schema, and the methods whose contracts are assumed above stay opaque
+    base_res = self_method_resolver(py, ci_t, SELF, exclude=('build_proof_from_hint', 'simplify_clause', 'merge_clauses', 'conjunction_implies_nth'))
+
+    def branching_helpers(call, env, _ev):
+        hit = base_res(call, env, _ev)
+        if hit is not None and any(isinstance(x, (ast.If, ast.Match, ast.IfExp)) for x in ast.walk(hit[0])) \
+                and not any(isinstance(x, (ast.For, ast.While)) for x in ast.walk(hit[0])):
+            return hit
+        return None
+    for p in PyEval(resolver=branching_helpers).paths(fn):
         if p.end[0] != 'return':
             continue
         rv = p.end[1]
@@ -911,10 +1127,11 @@ def run(ctx):
     lemma_schemas(ctx, py)
     conj_form_contract(ctx, py)
     resolution_contract(ctx, py)
+    resolvable_contract(ctx, py)
     form_stage_contract(ctx, py, 'propag_neg')
     form_stage_contract(ctx, py, 'to_cnf')
     literal_encoding(ctx, py)
-    clauses_stage_contract(ctx, py)
+    clauses_stage_contract(ctx, py, max_k=8 if ctx.tier == 'thorough' else 4)
     cnf_shape(ctx, py)
     fold_direction(ctx, py)
     ctx.floor('cnf-shape', 5)
